@@ -694,6 +694,12 @@ func (f *fn) call(x *ast.CallExpr, pre *[]string) string {
 	case "strings.Trim":
 		a := f.args(x, pre)
 		return "(Go.strTrim " + a[0] + " " + a[1] + ")"
+	case "strings.TrimSpace":
+		a := f.args(x, pre)
+		return "(Go.trimSpace " + a[0] + ")"
+	case "strings.CutPrefix":
+		a := f.args(x, pre)
+		return "(Go.cutPrefix " + a[0] + " " + a[1] + ")"
 	case "unicode.IsLower", "unicode.IsUpper", "unicode.IsDigit":
 		a := f.args(x, pre)
 		return "(p.is" + name[10:] + " " + a[0] + ")"
